@@ -169,18 +169,15 @@ theorem C15_create_idempotent (s : DState) (p : Nat) :
     (∀ c, s.reg p = some c → s.create p = s) ∧
     (s.reg p = none → (s.create p).reg p = some Chains.fresh) ∧
     (∀ q, q ≠ p → (s.create p).reg q = s.reg q) := by
-  refine ⟨?_, ?_, ?_, fun q hq => Registry.create_other _ hq⟩
+  refine ⟨?_, fun c hr => DState.create_some hr, ?_, fun q hq => by rw [DState.create_reg]; exact Registry.create_other _ hq⟩
   · cases hr : s.reg p with
-    | some c =>
-      have : s.create p = s := by simp [DState.create, Registry.create_some hr]
-      rw [this, this]
+    | some c => rw [DState.create_some hr, DState.create_some hr]
     | none =>
-      have h1 : (s.reg.create p) p = some Chains.fresh := by rw [Registry.create_none hr, Registry.upd_same]
-      simp [DState.create, Registry.create_some h1]
-  · intro c hr
-    simp [DState.create, Registry.create_some hr]
+      have h1 : (s.create p).reg p = some Chains.fresh := by
+        rw [DState.create_reg, Registry.create_none hr, Registry.upd_same]
+      exact DState.create_some h1
   · intro hr
-    simp [DState.create, Registry.create_none hr]
+    rw [DState.create_reg, Registry.create_none hr, Registry.upd_same]
 
 /-- ... hence after every history, however often `create` occurred, each of the five chains of every
     wrapped instance contains the protocol's own method exactly once, as its last element. -/
